@@ -643,7 +643,8 @@ Proof.
     + exists t, pr, prev, older, s1. split; [reflexivity|]. split; [exact H1|].
       split; [exact Hinv1|]. split; [exact Hle1|].
       exact (proj1 (step_error_iff cfg t _ p pr prev older s1 e Hinv1 Ek Ht Hle1) Hs1).
-  - left. injection H as <-. destruct (stv_init_err cand cfg p e0 Hwf Ei) as [-> [Hm|Hb]].
+  - left. injection H as <-. assert (Hint : s_transfer cfg = TRandom -> integral_weights cand p) by (intros E; congruence).
+    destruct (stv_init_err cand cfg p e0 Hwf Hint Ei) as [-> [Hm|Hb]].
     + split; [reflexivity|exact Hm].
     + rewrite Hq in Hb. discriminate.
 Qed.
